@@ -123,21 +123,26 @@ class ForwardSDE(BaseSDE):
     #          g_prod_and_gdg_prod         #
     ########################################
 
-    # Computes: g_prod and sum_{j, l} g_{j, l} d g_{j, l} d x_i v2_l.
+    # Computes: g_prod and sum_{j, l} d g_{i, l} / d x_j g_{j, l} v2_l.
     def g_prod_and_gdg_prod_default(self, t, y, v1, v2):
         requires_grad = torch.is_grad_enabled()
         with torch.enable_grad():
             y = y if y.requires_grad else y.detach().requires_grad_(True)
             g = self.g(t, y)
-            vg_dg_vjp, = misc.vjp(
-                outputs=g,
-                inputs=y,
-                grad_outputs=g * v2.unsqueeze(-2),
-                retain_graph=True,
-                create_graph=requires_grad,
-                allow_unused=True
+            # Jacobian-vector products, column by column. (A vector-Jacobian product is only the same thing when the
+            # Jacobian of each column is symmetric, e.g. for diagonal noise.)
+            dg_g_jvp = sum(
+                misc.jvp(
+                    outputs=g[..., col_idx],
+                    inputs=y,
+                    grad_inputs=g[..., col_idx] * v2[..., col_idx].unsqueeze(-1),
+                    retain_graph=True,
+                    create_graph=requires_grad,
+                    allow_unused=True
+                )[0]
+                for col_idx in range(g.size(-1))
             )
-        return self.prod(g, v1), vg_dg_vjp
+        return self.prod(g, v1), dg_g_jvp
 
     def g_prod_and_gdg_prod_diagonal(self, t, y, v1, v2):
         requires_grad = torch.is_grad_enabled()
